@@ -198,3 +198,302 @@ pub proof fn lemma_scan_valid(s: Seq<u8>)
     }
 }
 } // verus!
+verus! {
+// ---------------------------------------------------------------------------------------------
+// prefixes of well-formed text seen by the accumulator
+// ---------------------------------------------------------------------------------------------
+
+/// a proper prefix of one well-formed scalar leaves exactly those octets pending
+pub proof fn lemma_scan_partial_scalar(s: Seq<u8>, i: int)
+    requires valid_first_scalar(s), 0 < i < length_of_first_scalar(s)
+    ensures scan(Seq::empty(), s.subrange(0, i)) == (s.subrange(0, i), 0nat)
+{
+    let n = length_of_first_scalar(s);
+    let t = s.subrange(0, i);
+    reveal_with_fuel(scan, 5);
+    lemma_second_ok(s);
+    if i == 1 {
+        assert(t.drop_last() =~= Seq::<u8>::empty());
+        assert(t =~= seq![s[0]]);
+    } else if i == 2 {
+        assert(t.drop_last() =~= seq![s[0]]);
+        assert(t.drop_last().drop_last() =~= Seq::<u8>::empty());
+        assert(seq![s[0]].push(s[1]) =~= t);
+    } else {
+        assert(t.drop_last() =~= seq![s[0], s[1]]);
+        assert(t.drop_last().drop_last() =~= seq![s[0]]);
+        assert(t.drop_last().drop_last().drop_last() =~= Seq::<u8>::empty());
+        assert(seq![s[0]].push(s[1]) =~= seq![s[0], s[1]]);
+        assert(seq![s[0], s[1]].push(s[2]) =~= t);
+    }
+}
+
+/// validity of the first scalar only depends on its own octets
+pub proof fn lemma_first_scalar_prefix(s: Seq<u8>, i: int)
+    requires valid_first_scalar(s), length_of_first_scalar(s) <= i <= s.len()
+    ensures valid_first_scalar(s.subrange(0, i)),
+        length_of_first_scalar(s.subrange(0, i)) == length_of_first_scalar(s),
+        decode_first_scalar(s.subrange(0, i)) == decode_first_scalar(s),
+        pop_first_scalar(s.subrange(0, i)) == pop_first_scalar(s).subrange(0, i - length_of_first_scalar(s)),
+{
+    let t = s.subrange(0, i);
+    assert(valid_leading_and_continuation_bytes_first_codepoint(t));
+    assert(decode_first_codepoint(t) == decode_first_codepoint(s));
+    assert(pop_first_scalar(t) =~= pop_first_scalar(s).subrange(0, i - length_of_first_scalar(s)));
+}
+
+/// within the first scalar: the step on octet i emits exactly when it is the last octet of the scalar
+pub proof fn lemma_first_step_emits(s: Seq<u8>, i: int)
+    requires valid_utf8(s), s.len() > 0, 0 <= i < length_of_first_scalar(s)
+    ensures (acc_step(if i == 0 { Seq::<u8>::empty() } else { s.subrange(0, i) }, s[i]).1 is Some)
+            == is_char_boundary(s, i + 1)
+{
+    let n = length_of_first_scalar(s);
+    let rest = pop_first_scalar(s);
+    assert(is_char_boundary(s, i + 1) == is_char_boundary(rest, i + 1 - n));
+    assert(is_char_boundary(rest, i + 1 - n) == (i + 1 == n));
+    if n >= 2 { lemma_second_ok(s); }
+    if i > 0 { assert(s.subrange(0, i)[0] == s[0]); }
+}
+
+/// What the accumulator has seen after the first i bytes of well-formed text:
+/// it is idle exactly at character boundaries, and there it has emitted the characters of the prefix.
+pub proof fn lemma_scan_prefix(s: Seq<u8>, i: int)
+    requires valid_utf8(s), 0 <= i <= s.len()
+    ensures ({ let (p, c) = scan(Seq::empty(), s.subrange(0, i));
+        &&& (p.len() == 0) == is_char_boundary(s, i)
+        &&& c <= i
+        &&& is_char_boundary(s, i) ==> valid_utf8(s.subrange(0, i)) && c == decode_utf8(s.subrange(0, i)).len()
+        &&& i < s.len() ==> (acc_step(p, s[i]).1 is Some) == is_char_boundary(s, i + 1)
+    })
+    decreases s.len()
+{
+    if i == 0 {
+        assert(s.subrange(0, 0) =~= Seq::<u8>::empty());
+        if s.len() > 0 {
+            lemma_first_step_emits(s, 0);
+        }
+    } else {
+        let n = length_of_first_scalar(s);
+        let rest = pop_first_scalar(s);
+        if i < n {
+            lemma_scan_partial_scalar(s, i);
+            assert(!is_char_boundary(rest, i - n));
+            lemma_first_step_emits(s, i);
+        } else {
+            if i < s.len() { assert(s[i] == rest[i - n]); }
+            lemma_scan_one_scalar(s);
+            lemma_scan_prefix(rest, i - n);
+            lemma_scan_append(Seq::empty(), s.subrange(0, n), rest.subrange(0, i - n));
+            assert(s.subrange(0, n) + rest.subrange(0, i - n) =~= s.subrange(0, i));
+            lemma_first_scalar_prefix(s, i);
+            if is_char_boundary(s, i) {
+                let t = s.subrange(0, i);
+                assert(valid_utf8(pop_first_scalar(t)));
+                assert(valid_utf8(t));
+                assert(decode_utf8(t).len() == 1 + decode_utf8(pop_first_scalar(t)).len());
+            }
+        }
+    }
+}
+
+/// at a character boundary i of well-formed text: the text splits there, and the byte offset is the
+/// encoded length of the characters before it
+pub proof fn lemma_boundary_offset(s: Seq<u8>, i: int)
+    requires valid_utf8(s), 0 <= i <= s.len(), is_char_boundary(s, i)
+    ensures valid_utf8(s.subrange(0, i)), valid_utf8(s.subrange(i, s.len() as int)),
+        decode_utf8(s) == decode_utf8(s.subrange(0, i)) + decode_utf8(s.subrange(i, s.len() as int)),
+        decode_utf8(s.subrange(0, i)) == decode_utf8(s).subrange(0, decode_utf8(s.subrange(0, i)).len() as int),
+        encode_utf8(decode_utf8(s).subrange(0, decode_utf8(s.subrange(0, i)).len() as int)).len() == i,
+        (i < s.len()) == (decode_utf8(s.subrange(0, i)).len() < decode_utf8(s).len()),
+{
+    valid_utf8_split(s, i);
+    decode_utf8_split(s, i);
+    let a = s.subrange(0, i);
+    let b = s.subrange(i, s.len() as int);
+    assert(decode_utf8(s).subrange(0, decode_utf8(a).len() as int) =~= decode_utf8(a));
+    decode_utf8_encode_utf8(a);
+    if i < s.len() {
+        assert(b.len() > 0);
+        assert(decode_utf8(b).len() > 0);
+    } else {
+        assert(b =~= Seq::<u8>::empty());
+    }
+}
+} // verus!
+verus! {
+/// byte offset of the k-th character of a text
+pub open spec fn byte_off(cs: Seq<char>, k: int) -> int { encode_utf8(cs.subrange(0, k)).len() as int }
+
+/// number of leading spaces
+pub open spec fn leading_spaces(s: Seq<u8>) -> int
+    decreases s.len()
+{
+    if s.len() > 0 && s[0] == 0x20 { 1 + leading_spaces(s.drop_first()) } else { 0 }
+}
+pub open spec fn trim_start_spec(s: Seq<u8>) -> Seq<u8> { s.subrange(leading_spaces(s), s.len() as int) }
+} // verus!
+verus! {
+// ---------------------------------------------------------------------------------------------
+// char_pop_front: incremental decoding of the first scalar
+// ---------------------------------------------------------------------------------------------
+
+/// value accumulated by `char_pop_front` after consuming k octets of the first scalar of s
+pub open spec fn pop_partial(s: Seq<u8>, k: int) -> u32 {
+    let n = length_of_first_scalar(s);
+    let b0 = if n == 1 { s[0] as u32 } else if n == 2 { (s[0] & 0x1F) as u32 } else { (s[0] & 0x0F) as u32 };
+    if k <= 1 { b0 }
+    else if k == 2 { (b0 << 6) | ((s[1] as u32) & 0x3F) }
+    else if k == 3 { (((b0 << 6) | ((s[1] as u32) & 0x3F)) << 6) | ((s[2] as u32) & 0x3F) }
+    else { (((((b0 << 6) | ((s[1] as u32) & 0x3F)) << 6) | ((s[2] as u32) & 0x3F)) << 6) | ((s[3] as u32) & 0x3F) }
+}
+
+pub proof fn lemma_cont_mask(b: u8)
+    ensures ((b & 0xC0) == 0x80) == is_continuation_byte(b)
+{
+    assert(((b & 0xC0) == 0x80) == (0x80 <= b && b <= 0xBF)) by (bit_vector);
+}
+
+/// shape of the lead byte of a well-formed first scalar, as tested by char_pop_front
+pub proof fn lemma_second_ok_or_ascii(s: Seq<u8>)
+    requires valid_first_scalar(s)
+    ensures
+        length_of_first_scalar(s) == 1 <==> s[0] < 0x80,
+        length_of_first_scalar(s) == 2 <==> (s[0] & 0xE0) == 0xC0,
+        s.len() >= length_of_first_scalar(s),
+        forall|j: int| 1 <= j < length_of_first_scalar(s) ==> is_continuation_byte(#[trigger] s[j]),
+{
+    let b = s[0];
+    assert(((b & 0xE0) == 0xC0) == (0xC0 <= b && b <= 0xDF)) by (bit_vector);
+}
+
+pub proof fn lemma_pop_front_bits(s: Seq<u8>)
+    requires valid_first_scalar(s)
+    ensures pop_partial(s, 1) == (if s[0] < 0x80 { s[0] as u32 } else if (s[0] & 0xE0) == 0xC0 { (s[0] & 0x1F) as u32 } else { (s[0] & 0x0F) as u32 })
+{
+    lemma_second_ok_or_ascii(s);
+}
+
+pub proof fn lemma_pop_step(s: Seq<u8>, k: int, cp: u32)
+    requires valid_first_scalar(s), 1 <= k < length_of_first_scalar(s), cp == pop_partial(s, k)
+    ensures ((cp << 6) | ((s[k] as u32) & 0x3F)) == pop_partial(s, k + 1)
+{
+}
+
+/// after all octets of the first scalar: the accumulated value is the decoded scalar, and it is a scalar value
+pub proof fn lemma_pop_final(s: Seq<u8>)
+    requires valid_first_scalar(s)
+    ensures pop_partial(s, length_of_first_scalar(s)) == decode_first_scalar(s),
+        is_scalar(decode_first_scalar(s)),
+{
+    let n = length_of_first_scalar(s);
+    let b1 = s[0];
+    lemma_second_ok_or_ascii(s);
+    if n == 1 {
+        assert(b1 & 0x7F == b1) by (bit_vector) requires b1 < 0x80;
+    } else if n == 2 {
+        let b2 = s[1];
+        assert((((b1 & 0x1F) as u32) << 6) | ((b2 as u32) & 0x3F) == (((b1 & 0x1F) as u32) << 6) | ((b2 & 0x3F) as u32)) by (bit_vector);
+        assert((((b1 & 0x1F) as u32) << 6) | ((b2 & 0x3F) as u32) <= 2047u32) by (bit_vector);
+    } else if n == 3 {
+        let b2 = s[1]; let b3 = s[2];
+        assert((((((b1 & 0x0F) as u32) << 6) | ((b2 as u32) & 0x3F)) << 6) | ((b3 as u32) & 0x3F)
+            == (((b1 & 0x0F) as u32) << 12) | (((b2 & 0x3F) as u32) << 6) | ((b3 & 0x3F) as u32)) by (bit_vector);
+        assert((((b1 & 0x0F) as u32) << 12) | (((b2 & 0x3F) as u32) << 6) | ((b3 & 0x3F) as u32) <= 65535u32) by (bit_vector);
+    } else {
+        let b2 = s[1]; let b3 = s[2]; let b4 = s[3];
+        assert((((((((b1 & 0x0F) as u32) << 6) | ((b2 as u32) & 0x3F)) << 6) | ((b3 as u32) & 0x3F)) << 6) | ((b4 as u32) & 0x3F)
+            == (((b1 & 0x07) as u32) << 18) | (((b2 & 0x3F) as u32) << 12) | (((b3 & 0x3F) as u32) << 6) | ((b4 & 0x3F) as u32)) by (bit_vector)
+            requires 0xF0 <= b1 <= 0xF7;
+    }
+}
+} // verus!
+verus! {
+// ---------------------------------------------------------------------------------------------
+// encode_utf8: loop invariant and bit-level step lemmas
+// ---------------------------------------------------------------------------------------------
+pub open spec fn enc_loop_inv(orig: u32, len: int, counter: int, code: u32, buf: Seq<u8>) -> bool {
+    &&& 2 <= len <= 4 && 0 <= counter < len && buf.len() >= len
+    &&& code == (if len - 1 - counter == 0 { orig } else if len - 1 - counter == 1 { orig >> 6 }
+                 else if len - 1 - counter == 2 { orig >> 12 } else { orig >> 18 })
+    &&& (counter < len - 1 ==> buf[len - 1] == last_continuation_byte(orig))
+    &&& (counter < len - 2 ==> buf[len - 2] == second_last_continuation_byte(orig))
+    &&& (counter < len - 3 ==> buf[len - 3] == third_last_continuation_byte(orig))
+}
+
+pub proof fn lemma_enc_len(orig: u32)
+    requires is_scalar(orig)
+    ensures
+        encode_scalar(orig).len() == 1 <==> orig < 0x80,
+        encode_scalar(orig).len() == 2 <==> 0x80 <= orig < 0x800,
+        encode_scalar(orig).len() == 3 <==> 0x800 <= orig < 0x10000,
+        encode_scalar(orig).len() == 4 <==> 0x10000 <= orig,
+        1 <= encode_scalar(orig).len() <= 4,
+{
+}
+
+pub proof fn lemma_enc_step(orig: u32, len: int, counter: int, code: u32, buf: Seq<u8>)
+    requires enc_loop_inv(orig, len, counter, code, buf), counter > 0, is_scalar(orig), orig >= 0x80,
+        len == encode_scalar(orig).len(),
+    ensures enc_loop_inv(orig, len, counter - 1, code >> 6,
+        buf.update(counter, ((code as u8) & 0b0011_1111) | 0b1000_0000)),
+{
+    lemma_enc_len(orig);
+    assert(((orig as u8) & 0x3F) | 0x80 == 0x80u8 | ((orig & 0x3F) as u8)) by (bit_vector);
+    assert((((orig >> 6) as u8) & 0x3F) | 0x80 == 0x80u8 | (((orig >> 6) & 0x3F) as u8)) by (bit_vector);
+    assert((((orig >> 12) as u8) & 0x3F) | 0x80 == 0x80u8 | (((orig >> 12) & 0x3F) as u8)) by (bit_vector);
+    assert((orig >> 6) >> 6 == orig >> 12) by (bit_vector);
+    assert((orig >> 12) >> 6 == orig >> 18) by (bit_vector);
+    let t = len - 1 - counter;
+    let nb = buf.update(counter, ((code as u8) & 0b0011_1111) | 0b1000_0000);
+    if t == 0 {
+        assert(nb[len - 1] == last_continuation_byte(orig));
+    } else if t == 1 {
+        assert(nb[len - 2] == second_last_continuation_byte(orig));
+    } else {
+        assert(nb[len - 3] == third_last_continuation_byte(orig));
+    }
+}
+
+pub proof fn lemma_enc_final(orig: u32, len: int, code: u32, mask: u8, buf: Seq<u8>)
+    requires enc_loop_inv(orig, len, 0, code, buf), is_scalar(orig), orig >= 0x80,
+        len == encode_scalar(orig).len(),
+        mask == (if len == 2 { 0xC0u8 } else if len == 3 { 0xE0u8 } else { 0xF0u8 }),
+    ensures buf.update(0, code as u8 | mask).subrange(0, len) =~= encode_scalar(orig),
+{
+    lemma_enc_len(orig);
+    if len == 2 {
+        assert(((orig >> 6) as u8) | 0xC0 == 0xC0u8 | (((orig >> 6) & 0x1F) as u8)) by (bit_vector) requires orig < 0x800;
+    } else if len == 3 {
+        assert(((orig >> 12) as u8) | 0xE0 == 0xE0u8 | (((orig >> 12) & 0x0F) as u8)) by (bit_vector) requires orig < 0x10000;
+    } else {
+        assert(((orig >> 18) as u8) | 0xF0 == 0xF0u8 | (((orig >> 18) & 0x07) as u8)) by (bit_vector) requires orig < 0x110000;
+    }
+}
+} // verus!
+verus! {
+pub proof fn lemma_leading_spaces(s: Seq<u8>, pos: int)
+    requires 0 <= pos <= s.len(), forall|i: int| 0 <= i < pos ==> s[i] == 0x20, pos < s.len() ==> s[pos] != 0x20
+    ensures leading_spaces(s) == pos
+    decreases pos
+{
+    if pos > 0 {
+        lemma_leading_spaces(s.drop_first(), pos - 1);
+    }
+}
+
+/// a run of ASCII bytes at the start of well-formed text ends on a character boundary
+pub proof fn lemma_ascii_prefix_boundary(s: Seq<u8>, pos: int)
+    requires valid_utf8(s), 0 <= pos <= s.len(), forall|i: int| 0 <= i < pos ==> s[i] < 0x80
+    ensures is_char_boundary(s, pos)
+    decreases pos
+{
+    if pos > 0 {
+        assert(is_leading_byte_width_1(s[0]));
+        assert(length_of_first_scalar(s) == 1);
+        let rest = pop_first_scalar(s);
+        assert forall|i: int| 0 <= i < pos - 1 implies rest[i] < 0x80 by { assert(rest[i] == s[i + 1]); }
+        lemma_ascii_prefix_boundary(rest, pos - 1);
+    }
+}
+} // verus!
